@@ -8,9 +8,29 @@
  * inside recv() when the input tape is exhausted.
  */
 #define _GNU_SOURCE
+#include <pthread.h>
 #include "rtrlib/rtr/packets.c"
 #undef MGR_DBG1
+/* rtr_stop() cancels and joins the state-machine thread; when the script has already ended the
+ * thread (and the harness has joined it) these two calls must not be repeated */
+static int h_joined;
+static int h_cancel(pthread_t t);
+static int h_join(pthread_t t, void **r);
+#define pthread_cancel(t) h_cancel(t)
+#define pthread_join(t, r) h_join(t, r)
 #include "rtrlib/rtr/rtr.c"
+#undef pthread_cancel
+#undef pthread_join
+
+static int h_cancel(pthread_t t)
+{
+	return h_joined ? 0 : pthread_cancel(t);
+}
+
+static int h_join(pthread_t t, void **r)
+{
+	return h_joined ? 0 : pthread_join(t, r);
+}
 
 #include "rtrlib/pfx/trie/trie-pfx.h"
 #include "rtrlib/spki/hashtable/ht-spkitable_private.h"
@@ -105,7 +125,7 @@ static int oq_head, oq_tail;
 static pthread_mutex_t mu = PTHREAD_MUTEX_INITIALIZER;
 static pthread_cond_t cv_parked = PTHREAD_COND_INITIALIZER;
 static pthread_cond_t cv_resume = PTHREAD_COND_INITIALIZER;
-static bool parked;       /* the FSM thread waits in recv() for more tape */
+static bool parked;       /* the FSM thread has seen the end of the tape (stop request) */
 static bool threaded;     /* a run through rtr_start is active */
 static bool direct_eof;   /* in direct (non-threaded) runs an empty tape answers TR_ERROR once */
 
@@ -276,14 +296,15 @@ static int m_recv(const void *s, void *buf, const size_t len, const time_t timeo
 				direct_eof = true;
 				return TR_ERROR;
 			}
+			/* end of script in a threaded run: a stop request arrives (what rtr_stop does first),
+			 * the call fails, the state machine unwinds and its thread exits */
+			tracef("R %zu %lld -> eof", len, (long long)timeout);
+			sock.state = RTR_SHUTDOWN;
 			pthread_mutex_lock(&mu);
-			pthread_cleanup_push(unlock_mu, NULL);
 			parked = true;
 			pthread_cond_signal(&cv_parked);
-			while (parked)
-				pthread_cond_wait(&cv_resume, &mu);
-			pthread_cleanup_pop(1);
-			continue;
+			pthread_mutex_unlock(&mu);
+			return TR_ERROR;
 		}
 		struct ev *e = &tape[tape_head];
 
@@ -665,21 +686,21 @@ int main(void)
 			flush_trace();
 			puts("end");
 		} else if (!strcmp(w[0], "run") && n == 2 && !strcmp(w[1], "fsm")) {
-			if (!threaded) {
-				parked = false;
-				threaded = true;
-				if (rtr_start(&sock) != RTR_SUCCESS) {
-					threaded = false;
-					puts("bad-op");
-					continue;
-				}
-			} else {
-				pthread_mutex_lock(&mu);
-				parked = false;
-				pthread_cond_signal(&cv_resume);
-				pthread_mutex_unlock(&mu);
+			if (threaded || sock.state == RTR_SHUTDOWN) {
+				puts("bad-op");
+				continue;
+			}
+			parked = false;
+			threaded = true;
+			h_joined = 0;
+			if (rtr_start(&sock) != RTR_SUCCESS) {
+				threaded = false;
+				puts("bad-op");
+				continue;
 			}
 			wait_parked();
+			pthread_join(sock.thread_id, NULL);
+			h_joined = 1;
 			flush_trace();
 			puts("end");
 		} else if (!strcmp(w[0], "run") && n == 2 && !strcmp(w[1], "stop") && threaded) {
@@ -699,10 +720,8 @@ int main(void)
 			puts("bad-op");
 		}
 	}
-	if (threaded) {
+	if (threaded)
 		rtr_stop(&sock);
-		flush_trace();
-	}
 	free(line);
 	return 0;
 }
